@@ -468,7 +468,12 @@ def run_texts(ctx):
                 ctx.count('texts:storage-changed-between-queries')
             lines.append('reset')
             expect.append(None)
-            for ref, lang, ver, width, nol in store:
+            # the model is given the storage content in the storage's key order (dict of lists keyed by Ref): a key can be
+            # older than its first text, because a query for an unknown Ref creates the (empty) key (defaultdict)
+            key_order = list(storage._localized_texts.keys())  # noqa: SLF001
+            perm = sorted(range(len(store)), key=lambda i: (key_order.index(store[i][0]), i))
+            for i in perm:
+                ref, lang, ver, width, nol = store[i]
                 lines.append(f't {enc(ref)} {enc(lang)} ' + ('-' if ver is None else str(ver)) + ' ' +
                              ('-' if width is None else str(WIDTHS.index(width))) + f' {nol}')
                 expect.append(None)
@@ -488,7 +493,7 @@ def run_texts(ctx):
                 ctx.count('texts:constraints-present=' + ''.join(map(str, pres)))
                 ctx.count('texts:' + ('service' if via_service else 'storage') + (':empty' if not ids else ':non-empty'))
                 lines.append(texts_line(query))
-                expect.append(('texts', {k_: v for k_, v in case.items() if k_ != 'prior_queries'}, ids))
+                expect.append(('texts', {k_: v for k_, v in case.items() if k_ != 'prior_queries'}, ids, perm))
             # supported languages
             try:
                 if via_service:
@@ -511,11 +516,11 @@ def run_texts(ctx):
         for o, e in zip(out, expect):
             if e is None:
                 continue
-            kind, case, impl = e
+            kind, case, impl = e[:3]
             if kind == 'tw':
                 model = o
             elif kind == 'texts':
-                model = [int(x) for x in o.split()[1:]] if o.startswith('ok') else o
+                model = [e[3][int(x)] for x in o.split()[1:]] if o.startswith('ok') else o
             else:
                 model = sorted(dec(x) for x in o.split()[1:]) if o.startswith('ok') else o
             if model != impl:
